@@ -186,6 +186,11 @@ func c05Judge(root string, cs c05case, res *core.ShardResult) (vs []core.Violati
 		_ = core.WriteFiles(root, map[string]string{".gitignore": "src/\n*.ts\nlib\nzz.js\n", "lib/.ignore": "*\n"})
 		res.Count("trees_with_ignore_files", 1)
 	}
+	if cs.Mask%3 == 2 {
+		// directories that other tools leave out by name: to a glob they are directories like any other
+		_ = core.WriteFiles(root, map[string]string{"vendor/v.js": "v", "node_modules/m/n.js": "n", "__pycache__/p.js": "p", "target/t.js": "t", "build/b.ts": "b", "dist/d.js": "d", "src/vendor/w.js": "w"})
+		res.Count("trees_with_vendor_like_directories", 1)
+	}
 	for _, l := range links {
 		// dangling whenever the target is not part of the tree; "ld" links to the directory src, whose
 		// files are then also reached as ld/...
